@@ -490,6 +490,17 @@ def rule_taken_at_call_site(ctx):
     ok = len(calls) >= 1 and tk is not None and all(c[2][1] == tk for c in calls) and "rename_predicates" in rt and rt.count("Formula::predicates") >= 2 and "input_predicates" in rt
     ctx.add("SEQ", "taken-at-call-site", ok, ctx.site(b),
             "ProofOutline::from_specification receives taken = input predicates + predicates of the left formulas + predicates of the renamed right formulas")
+    # every formula of both theories is scanned: each `extend(formula.predicates())` sits in a loop over the whole formula list of one theory
+    # (a `zip` of the two lists stops at the shorter one)
+    srcs = []
+    for x in sym.subterms(tk) if tk is not None else ():
+        if isinstance(x, tuple) and x[:2] == ("call", "Formula::predicates") and len(x[2]) == 1:
+            for y in sym.subterms(x[2][0]):
+                if isinstance(y, tuple) and len(y) == 2 and y[0] == "each":
+                    srcs.append(y[1])
+    whole_lists = [s_ for s_ in srcs if isinstance(s_, tuple) and s_[:1] == ("fieldof",) and s_[2] == "formulas"]
+    ctx.add("SEQ", "taken-scans-both-theories", bool(srcs) and len(whole_lists) == len(srcs) and len(set(whole_lists)) >= 2, ctx.site(b),
+            "the predicates of every formula of both theories are taken: %d loop(s) over a whole formula list, %d other" % (len(set(whole_lists)), len(srcs) - len(whole_lists)))
 
 
 def rule_guard_printed_as_meant(ctx):
